@@ -6,14 +6,14 @@ from gen import extract_facts
 generate_facts = extract_facts.generate
 
 ID = "C04"
-LEAN_MODULES = ["Econf.Props.C04", "Econf.Props.Tie", "Econf.Props.Leaf", "Econf.Props.LeafKf"]
+LEAN_MODULES = ["Econf.Props.C04", "Econf.Props.Tie", "Econf.Props.Leaf", "Econf.Props.LeafKf", "Econf.Props.LeafMerge"]
 THEOREMS = ["Econf.C04_read_total", "Econf.C04_line_total", "Econf.C04_split_lossless", "Econf.parseLine_err", "Econf.Struct.tie_parser_codes",
             "Leaf.ltrim_exec", "Leaf.rtrim_exec", "Leaf.trim_exec", "Leaf.toLowerCase_exec",
             "Leaf.stripbrackets_exec", "Leaf.C_trim", "Leaf.C_toLowerCase", "Leaf.C_stripbrackets", "Leaf.C_ltrim",
             "Leaf.check_delim_exec", "Leaf.hashstring_exec",
             "Leaf.addbrackets_exec", "Leaf.replace_str_exec", "Leaf.C_replace_str", "Leaf.replaceSpec_length",
             "LeafKf.first_entry_exec", "LeafKf.has_group_exec", "LeafKf.first_definition_exec",
-            "LeafKf.find_key_exec", "LeafKf.getFromGroupList_exec", "LeafKf.setGroupList_new", "LeafKf.setGroupList_found", "LeafKf.cpy_file_entry_exec", "LeafKf.C_fe_append"]
+            "LeafKf.find_key_exec", "LeafKf.getFromGroupList_exec", "LeafKf.setGroupList_new", "LeafKf.setGroupList_found", "LeafKf.cpy_file_entry_exec", "LeafKf.C_fe_append", "LeafKf.insert_nogroup_exec"]
 # the string helpers whose C source is translated to MiniC on every run (memory safety for every input is a theorem about the translation)
 LEAF_FNS = ["stripbrackets", "addbrackets", "toLowerCase", "hashstring", "ltrim", "rtrim", "trim", "check_delim", "replace_str",
             "has_group", "first_entry", "first_definition", "getFromGroupList", "find_key",
@@ -21,7 +21,7 @@ LEAF_FNS = ["stripbrackets", "addbrackets", "toLowerCase", "hashstring", "ltrim"
 SHRINK = False
 RULE = ("three input streams under ASan+UBSan with a per-scenario timeout: (1) all byte strings up to the tier's length over "
         "{a = space # [ ] \" newline} and random strings over a wider alphabet incl. NUL, tab, 0x80, ';'; (2) conventional documents "
-        "with byte-level mutations; (3) long lines around BUFSIZ and 64 KiB; (4) files with 0..34, 63..65, 127..129, 255..257 sections or keys per section, "
+        "with byte-level mutations; (3) long lines around BUFSIZ and 64 KiB; (5) last lines of 120*2^k-3..-1 bytes (the terminator in the last byte of getline's block) of ten shapes, with and without line break; (4) files with 0..34, 63..65, 127..129, 255..257 sections or keys per section, "
         "alone and as the inputs of a merge with that many sections in the result; x 7 delimiter sets x 3 comment sets x {default, JOIN, PYTHON, "
         "both}; after a successful read: every listing, every typed and extended getter on every key, merge with a second file in both "
         "roles, write and re-read; non-trivial = the read succeeded with at least one entry; distinct by (content, sets, options)")
@@ -152,6 +152,20 @@ def scenarios(tier, rng):
             s.lines[0] = "F %s %s" % (s.lines[0].split(" ")[1], long_line(rng, nlen, kind if kind < 6 else None))
             s.meta["a"] = ("long", nlen, s.lines[0])
             out.append(s)
+    # (5) a last line that fills the line buffer to the byte: getline hands out blocks of 120 * 2^k bytes, so a line of
+    #     120 * 2^k - 1 bytes without a line break has its terminator in the last byte of the block and whatever is read
+    #     behind the terminator is outside of it; every shape of line, padded with blanks or with text
+    shapes = [(b"key", b" "), (b"key=", b" "), (b"key =", b"v"), (b"key", b"y"), (b"", b" "), (b"[sec]", b" "), (b"#", b"c"), (b"k=\"", b"q"),
+              (b"k=v\n cont", b" "), (b"key\t", b"\t")]
+    for bi, blk in enumerate([120, 240, 480, 960]):
+        for si, (head, pad) in enumerate(shapes):
+            for delta in (-2, -1, 0):
+                total = blk + delta
+                tail = head.split(b"\n")[-1]
+                content = head + pad * (total - len(tail))
+                for nl in (b"", b"\n"):
+                    d, c, o = rng.choice(cfgs)
+                    out.append(scenario("b%d_%d_%d_%d" % (bi, si, delta + 2, len(nl)), content + nl, b"k=1\n", d, c, o, "blockfill"))
     return out
 
 
@@ -161,6 +175,15 @@ def oracle(s, lines):
             code = int(l.split()[1][1:])
             if code not in DOCUMENTED:
                 return "read returned the undocumented code %d" % code
+    # the sanitizer fills every fresh block with the byte 0xbe (ASAN_OPTIONS malloc_fill_byte): a key, value or comment that
+    # contains this byte although no file of the scenario does has been read from memory nobody had written to
+    m = s.meta
+    if "a" in m and not any(isinstance(m.get(x), bytes) and b"\xbe" in m[x] for x in ("a", "b")):
+        for l in lines:
+            if l.startswith("e "):
+                for t in l.split()[1:6]:
+                    if t.startswith("h") and "be" in t and b"\xbe" in bytes.fromhex(t[1:]):
+                        return "an entry contains bytes of uninitialised memory (sanitizer fill pattern 0xbe, not in any file): %s" % l[:160]
     return None
 
 
